@@ -730,8 +730,11 @@ def run(chk, args):
         if isinstance(rp, dict) and str(rp.get("kind", "")).startswith("natdisc"):
             from checks import c15_natdisc
             return c15_natdisc.replay(chk, rp)
+        if isinstance(rp, dict) and rp.get("kind") == "clientmain":
+            from checks import c15_clientmain
+            return c15_clientmain.replay_part(chk, rp)
         return _run_core(chk, args)
-    if only is None or only - {"eventbus", "natdisc"}:
+    if only is None or only - {"eventbus", "natdisc", "clientmain"}:
         _run_core(chk, args)
     if only is None or "eventbus" in only:
         from checks import c15_eventbus
@@ -740,3 +743,8 @@ def run(chk, args):
     if only is None or "natdisc" in only:
         from checks import c15_natdisc
         c15_natdisc.run_natdisc_part(chk, args)
+    # the client binary around the library: SOCKS accept loop, per-connection configuration from SOCKS
+    # arguments over flags, copy loop, shutdown (spec/ClientMain), see notes/ClientMain.md
+    if only is None or "clientmain" in only:
+        from checks import c15_clientmain
+        c15_clientmain.run_clientmain_part(chk, args)
